@@ -110,6 +110,9 @@ type C17Scenario struct {
 	// may stop there or (a paged store notices between pages) hand over some more events; every event it does
 	// hand over is still the whole chain's result.
 	CancelAtP1 int `json:"cancel_at_p1,omitempty"`
+	// Twin: a second task replays the same log with upcasting at the same time (no failures injected): both see
+	// every event as the whole chain's result - one replay's bookkeeping is not the other's
+	Twin bool `json:"twin,omitempty"`
 }
 
 func c17Name(i int) string {
@@ -184,6 +187,10 @@ func genC17(rt *rapid.T) core.Scenario {
 		sc.FailAt = -1
 		sc.Subscribe = false
 		sc.CancelAtP1 = 0
+	} else if sc.CancelAtP1 == 0 && rapid.IntRange(0, 3).Draw(rt, "twin") == 3 {
+		sc.Twin = true
+		sc.FailAt = -1
+		sc.Tape = core.DrawTape(rt, 200)
 		sc.Tape = core.DrawTape(rt, 200)
 	}
 	return sc
@@ -402,6 +409,17 @@ func (sc *C17Scenario) Execute(t *testing.T) *core.Outcome {
 		if sc.ClearDuring {
 			clearer = simrt.GoNamed("clearer", func() { bus.ClearUpcasts() })
 		}
+		var twin *simrt.Task
+		var seen2 []c17Seen
+		var err2 error
+		if sc.Twin {
+			twin = simrt.GoNamed("twin-replay", func() {
+				err2 = bus.ReplayWithUpcast(ctx, eventbus.OffsetOldest, func(e *eventbus.StoredEvent) error {
+					seen2 = append(seen2, c17Seen{e.Offset, e.Type, string(e.Data), e.Timestamp})
+					return nil
+				})
+			})
+		}
 		rctx, rcancel := context.WithCancel(ctx)
 		defer rcancel()
 		err = bus.ReplayWithUpcast(rctx, eventbus.OffsetOldest, func(e *eventbus.StoredEvent) error {
@@ -420,7 +438,18 @@ func (sc *C17Scenario) Execute(t *testing.T) *core.Outcome {
 		if failed > 0 {
 			out.Fault("upcaster-returns-error")
 		}
-		simrt.Join(clearer)
+		simrt.Join(clearer, twin)
+		if sc.Twin {
+			if err2 != nil || len(seen2) != len(stored) {
+				out.V("upcast-replay-count", "second concurrent replay: saw %d events of %d, error %v", len(seen2), len(stored), err2)
+				return
+			}
+			for i, s2 := range seen2 {
+				if w := want[i]; s2.Type != w.typ || !jsonEqual([]byte(s2.Data), []byte(w.data)) {
+					out.V("upcast-chain-result", "second concurrent replay, event %d (stored type %s): callback saw type %s data %s, expected type %s data %s", i, stored[i].Type, s2.Type, trunc(s2.Data), w.typ, trunc(w.data))
+				}
+			}
+		}
 		if len(seen) != len(stored) && !(cancelled && len(seen) < len(stored)) {
 			out.V("upcast-replay-count", "callback saw %d events, log has %d", len(seen), len(stored))
 			return
@@ -451,6 +480,9 @@ func (sc *C17Scenario) Execute(t *testing.T) *core.Outcome {
 		}
 		if cancelled && len(seen) < len(stored) {
 			return // the replay was cut short: the remaining rules are about complete replays
+		}
+		if sc.Twin {
+			wantErrCalls *= 2 // both replays report their failed chains
 		}
 		if sc.ErrHandler && len(errCalls) != wantErrCalls {
 			out.V("upcast-error-handler-count", "upcast error handler called %d times for %d failed chains", len(errCalls), wantErrCalls)
